@@ -246,6 +246,43 @@ class Hist:
 		self.ctx.count('orm_edit_steps')
 		return 'orm: ' + ','.join(did)
 
+	def step_explicit_writable_maker(self):
+		"""An explicitly writable session maker is requested (and only used for reading). Later *default* sessions must still refuse."""
+		from sqlalchemy.orm import Session
+		from gambit.db.sqla import file_sessionmaker
+		from gambit.db.models import Taxon
+		gdb = next(p for p in self.db.iterdir() if p.suffix in ('.gdb', '.db'))
+		how = self.rng.choice(['cls=Session', 'readonly=False'])
+		maker = file_sessionmaker(gdb, cls=Session) if how == 'cls=Session' else file_sessionmaker(gdb, readonly=False)
+		s = maker()
+		try:
+			s.query(Taxon).count()
+		finally:
+			s.close()
+		return f'library: file_sessionmaker({how}) used read-only'
+
+	def step_default_session_direct(self):
+		"""The library's default session obtained directly from file_sessionmaker / load_genomeset."""
+		from gambit.db.sqla import file_sessionmaker, ReadOnlySession
+		from gambit.db.refdb import load_genomeset
+		from gambit.db.models import Taxon
+		gdb = next(p for p in self.db.iterdir() if p.suffix in ('.gdb', '.db'))
+		for how in ('file_sessionmaker', 'load_genomeset'):
+			s = file_sessionmaker(gdb)() if how == 'file_sessionmaker' else load_genomeset(gdb)[0]
+			try:
+				t = s.query(Taxon).first()
+				t.name = 'edited through ' + how
+				s.flush()
+				try:
+					s.commit()
+				except Exception:
+					self.ctx.count('commit_refused')
+				else:
+					self.ctx.violation('commit-not-refused', f'commit() on the default session from {how}() returned normally', dict(how=how, session_class=type(s).__name__))
+			finally:
+				s.rollback(); s.close()
+		return 'library: default sessions from file_sessionmaker() and load_genomeset(): edit + flush + commit'
+
 	def step_cli_session(self):
 		"""The CLI context's own session maker must hand out a read-only session too."""
 		import click
@@ -285,7 +322,7 @@ class Hist:
 		return f'two console-script queries at once -> {res}'
 
 
-STEP_WEIGHTS = [('query_files', 5), ('query_sigs', 3), ('sigs_create', 2), ('dist_usedb', 3), ('info', 3), ('tree', 1), ('fail', 5), ('library', 3), ('orm', 4), ('cli_session', 2), ('concurrent', 1)]
+STEP_WEIGHTS = [('query_files', 5), ('query_sigs', 3), ('sigs_create', 2), ('dist_usedb', 3), ('info', 3), ('tree', 1), ('fail', 5), ('library', 3), ('orm', 4), ('cli_session', 2), ('concurrent', 1), ('explicit_writable_maker', 3), ('default_session_direct', 3)]
 
 
 def run_hist(sh, ctx):
@@ -397,7 +434,7 @@ def run_shard(sh, ctx):
 
 def finalize(merged, tier, seed, inconclusive):
 	c = merged['counters']
-	need = ['histories', 'step:query_files', 'step:query_sigs', 'step:dist_usedb', 'step:info', 'step:fail', 'step:library', 'step:orm', 'step:cli_session', 'failing_commands', 'commit_refused', 'orm_edit_steps',
+	need = ['histories', 'step:query_files', 'step:query_sigs', 'step:dist_usedb', 'step:info', 'step:fail', 'step:library', 'step:orm', 'step:cli_session', 'step:explicit_writable_maker', 'step:default_session_direct', 'failing_commands', 'commit_refused', 'orm_edit_steps',
 	        'sql:SELECT', 'straced_commands', 'syscall:open:O_RDONLY']
 	for n in need:
 		if c.get(n, 0) == 0:
